@@ -21,9 +21,19 @@ use astria_core::{
         test_utils::ConfigureSequencerBlock,
         transaction::v1::{
             action::{
+                self,
                 BridgeLock,
+                BridgeSudoChange,
+                BridgeTransfer,
                 BridgeUnlock,
+                FeeAssetChange,
+                FeeChange,
+                IbcRelayerChange,
+                IbcSudoChange,
+                Ics20Withdrawal,
+                InitBridgeAccount,
                 RollupDataSubmission,
+                SudoAddressChange,
                 Transfer,
                 ValidatorUpdate,
             },
@@ -103,7 +113,7 @@ fn case(_tier: Tier) -> BoxedStrategy<Case> {
         proptest::collection::vec((0_u8..4, vcommon::gen::hex_serde_bytes(24)), 0..6),
         0_u8..3,
         1_u8..5,
-        proptest::collection::vec(0_u8..5, 1..4),
+        proptest::collection::vec(0_u8..N_ACTION_KINDS, 1..4),
         proptest::collection::vec(mutation::strategy(), 0..=3),
         proptest::option::weighted(0.1, vcommon::gen::hex_serde_bytes(80)),
     )
@@ -155,52 +165,181 @@ fn block(case: &Case) -> SequencerBlock {
     .make()
 }
 
+/// Number of action kinds `single_action` knows.
+const N_ACTION_KINDS: u8 = 19;
+
+/// Kinds 0..=6 are "bundleable general" and may be mixed in one transaction.
+fn general_action(i: usize, kind: u8) -> Action {
+    match kind {
+        0 => Action::Transfer(Transfer {
+            to: address(i as u8),
+            amount: u128::MAX - i as u128,
+            asset: "nria".parse().unwrap(),
+            fee_asset: "nria".parse().unwrap(),
+        }),
+        1 => Action::RollupDataSubmission(RollupDataSubmission {
+            rollup_id: rollup(i as u8),
+            data: vec![i as u8; 5 + i].into(),
+            fee_asset: "transfer/channel-0/utia".parse().unwrap(),
+        }),
+        2 => Action::BridgeLock(BridgeLock {
+            to: address(7),
+            amount: 5,
+            asset: "nria".parse().unwrap(),
+            fee_asset: "nria".parse().unwrap(),
+            destination_chain_address: "rollup-address".to_string(),
+        }),
+        3 => Action::BridgeUnlock(BridgeUnlock {
+            to: address(8),
+            amount: 6,
+            fee_asset: "nria".parse().unwrap(),
+            bridge_address: address(9),
+            memo: "memo".to_string(),
+            rollup_block_number: 4,
+            rollup_withdrawal_event_id: "event".to_string(),
+        }),
+        4 => Action::ValidatorUpdate(ValidatorUpdate {
+            power: 10,
+            verification_key: key().verification_key(),
+            name: "validator".parse().unwrap(),
+        }),
+        5 => Action::Ics20Withdrawal(Ics20Withdrawal {
+            amount: u128::MAX / 3 + i as u128,
+            denom: "transfer/channel-1/uatom".parse().unwrap(),
+            destination_chain_address: "cosmos1destination".to_string(),
+            return_address: address(11),
+            timeout_height: ibc_types::core::client::Height::new(2, 1_000_000).unwrap(),
+            timeout_time: 1_800_000_000_000_000_000,
+            source_channel: "channel-1".parse().unwrap(),
+            fee_asset: "nria".parse().unwrap(),
+            memo: if i % 2 == 0 { String::new() } else { "{\"rollupBlockNumber\":1}".to_string() },
+            bridge_address: (i % 2 == 1).then(|| address(12)),
+            use_compat_address: i % 3 == 0,
+        }),
+        _ => Action::BridgeTransfer(BridgeTransfer {
+            to: address(13),
+            amount: 77,
+            fee_asset: "nria".parse().unwrap(),
+            destination_chain_address: "0xabc".to_string(),
+            bridge_address: address(14),
+            rollup_block_number: 9,
+            rollup_withdrawal_event_id: "transfer-event".to_string(),
+        }),
+    }
+}
+
+/// Kinds 7..N_ACTION_KINDS: sudo and unbundleable actions, one per transaction (or several of
+/// the same bundleable-sudo group).
+fn special_action(i: usize, kind: u8) -> Action {
+    use astria_core::{
+        oracles::price_feed::{
+            market_map::v2::{
+                Market,
+                ProviderConfig,
+                Ticker,
+            },
+            types::v2::CurrencyPair,
+        },
+        protocol::fees::v1::FeeComponents,
+    };
+    let pair = |base: &str| -> CurrencyPair { format!("{base}/USD").parse().unwrap() };
+    let market = |base: &str| Market {
+        ticker: Ticker {
+            currency_pair: pair(base),
+            decimals: 8,
+            min_provider_count: 1,
+            enabled: true,
+            metadata_json: "{}".to_string(),
+        },
+        provider_configs: vec![ProviderConfig {
+            name: "provider".to_string(),
+            off_chain_ticker: format!("{base}USD"),
+            normalize_by_pair: (i % 2 == 0).then(|| pair("USDT")),
+            invert: i % 2 == 1,
+            metadata_json: String::new(),
+        }],
+    };
+    match kind {
+        7 => Action::InitBridgeAccount(InitBridgeAccount {
+            rollup_id: rollup(i as u8),
+            asset: "nria".parse().unwrap(),
+            fee_asset: "nria".parse().unwrap(),
+            sudo_address: (i % 2 == 0).then(|| address(15)),
+            withdrawer_address: (i % 3 == 0).then(|| address(16)),
+        }),
+        8 => Action::BridgeSudoChange(BridgeSudoChange {
+            bridge_address: address(17),
+            new_sudo_address: Some(address(18)),
+            new_withdrawer_address: (i % 2 == 0).then(|| address(19)),
+            fee_asset: "nria".parse().unwrap(),
+            disable_deposits: i % 2 == 1,
+        }),
+        9 => Action::SudoAddressChange(SudoAddressChange {
+            new_address: address(20),
+        }),
+        10 => Action::IbcSudoChange(IbcSudoChange {
+            new_address: address(21),
+        }),
+        11 => Action::IbcRelayerChange(if i % 2 == 0 {
+            IbcRelayerChange::Addition(address(22))
+        } else {
+            IbcRelayerChange::Removal(address(22))
+        }),
+        12 => Action::FeeAssetChange(if i % 2 == 0 {
+            FeeAssetChange::Addition("transfer/channel-0/utia".parse().unwrap())
+        } else {
+            FeeAssetChange::Removal("nria".parse().unwrap())
+        }),
+        13 => Action::FeeChange(FeeChange::Transfer(FeeComponents::new(u128::MAX, 1))),
+        14 => Action::FeeChange(FeeChange::RollupDataSubmission(FeeComponents::new(0, u128::MAX - 1))),
+        15 => {
+            let mut set = indexmap::IndexSet::new();
+            set.insert(pair("BTC"));
+            set.insert(pair("ETH"));
+            Action::CurrencyPairsChange(if i % 2 == 0 {
+                action::CurrencyPairsChange::Addition(set)
+            } else {
+                action::CurrencyPairsChange::Removal(set)
+            })
+        }
+        16 => Action::MarketsChange(match i % 3 {
+            0 => action::MarketsChange::Creation(vec![market("BTC"), market("ETH")]),
+            1 => action::MarketsChange::Removal(vec![market("BTC")]),
+            _ => action::MarketsChange::Update(vec![market("TIA")]),
+        }),
+        17 => Action::RecoverIbcClient(action::RecoverIbcClient {
+            client_id: "07-tendermint-0".parse().unwrap(),
+            replacement_client_id: "07-tendermint-1".parse().unwrap(),
+        }),
+        _ => Action::FeeChange(FeeChange::MarketsChange(FeeComponents::new(7, 0))),
+    }
+}
+
 fn transaction(case: &Case) -> Transaction {
-    let actions: Vec<Action> = case
-        .actions
-        .iter()
-        .enumerate()
-        .map(|(i, kind)| match kind {
-            0 => Action::Transfer(Transfer {
-                to: address(i as u8),
-                amount: u128::MAX - i as u128,
-                asset: "nria".parse().unwrap(),
-                fee_asset: "nria".parse().unwrap(),
-            }),
-            1 => Action::RollupDataSubmission(RollupDataSubmission {
-                rollup_id: rollup(i as u8),
-                data: vec![i as u8; 5 + i].into(),
-                fee_asset: "transfer/channel-0/utia".parse().unwrap(),
-            }),
-            2 => Action::BridgeLock(BridgeLock {
-                to: address(7),
-                amount: 5,
-                asset: "nria".parse().unwrap(),
-                fee_asset: "nria".parse().unwrap(),
-                destination_chain_address: "rollup-address".to_string(),
-            }),
-            3 => Action::BridgeUnlock(BridgeUnlock {
-                to: address(8),
-                amount: 6,
-                fee_asset: "nria".parse().unwrap(),
-                bridge_address: address(9),
-                memo: "memo".to_string(),
-                rollup_block_number: 4,
-                rollup_withdrawal_event_id: "event".to_string(),
-            }),
-            _ => Action::ValidatorUpdate(ValidatorUpdate {
-                power: 10,
-                verification_key: key().verification_key(),
-                name: "validator".parse().unwrap(),
-            }),
-        })
-        .collect();
+    let first = case.actions.first().copied().unwrap_or(0) % N_ACTION_KINDS;
+    let actions: Vec<Action> = if first < 7 {
+        case.actions
+            .iter()
+            .enumerate()
+            .map(|(i, kind)| general_action(i, kind % 7))
+            .collect()
+    } else if matches!(first, 7..=10) {
+        // unbundleable: exactly one action
+        vec![special_action(case.actions.len(), first)]
+    } else {
+        // bundleable sudo: every action from that group
+        case.actions
+            .iter()
+            .enumerate()
+            .map(|(i, kind)| special_action(i, 11 + (kind % N_ACTION_KINDS) % (N_ACTION_KINDS - 11)))
+            .collect()
+    };
     TransactionBody::builder()
         .actions(actions)
         .chain_id("verif")
         .nonce(3)
         .try_build()
-        .expect("all generated action kinds are bundleable general")
+        .expect("generated bundles respect the action groups")
         .sign(&key())
 }
 
@@ -352,6 +491,188 @@ fn run_case(case: &Case, ctx: &mut Ctx) -> CaseResult {
     Ok(())
 }
 
+// ---------------------------------------------------------------------------------------------
+// byte-level entry shared with the libFuzzer target `c17_decoders`
+// ---------------------------------------------------------------------------------------------
+
+const DECODERS: [(Target, Decoder); 6] = [
+    (Target::Transaction, decode_transaction),
+    (Target::SequencerBlock, decode_block),
+    (Target::FilteredBlock, decode_filtered),
+    (Target::Metadata, decode_metadata),
+    (Target::RollupData, decode_rollup_data),
+    (Target::Proof, decode_proof),
+];
+
+/// The whole oracle as one function over bytes: byte 0 selects the decoder, the rest is the wire
+/// message. Returns normally when the property holds for this input and panics otherwise (a
+/// decoder panic, or an accepted value that is not a fixed point of its own decoder).
+pub fn fuzz_entry(data: &[u8]) {
+    let Some((selector, wire)) = data.split_first() else {
+        return;
+    };
+    let (_, decode) = DECODERS[usize::from(*selector) % DECODERS.len()];
+    if let Some(reencoded) = decode(wire) {
+        match decode(&reencoded) {
+            Some(again) => assert!(
+                again == reencoded,
+                "accepted value is not self-consistent: its re-encoding decodes to something else"
+            ),
+            None => panic!(
+                "accepted value is not self-consistent: its re-encoding is rejected by the same decoder"
+            ),
+        }
+    }
+}
+
+#[derive(Clone, Debug, Serialize, Deserialize)]
+pub struct FuzzInput {
+    data: HexBytes,
+}
+
+fn selector_of(target: Target) -> u8 {
+    DECODERS.iter().position(|(t, _)| *t == target).unwrap_or(0) as u8
+}
+
+fn fuzz_input(tier: Tier) -> BoxedStrategy<FuzzInput> {
+    prop_oneof![
+        // structured: an honest encoding with 0..3 mutations, as in `core_decoders`
+        6 => (case(tier), any::<u8>()).prop_map(|(case, other)| {
+            let (encoded, _) = honest(&case);
+            let (mutated, _) = mutation::mutate(&encoded, &case.mutations);
+            // one in eight: hand the message to another type's decoder
+            let selector = if other % 8 == 0 { other / 8 } else { selector_of(case.target) };
+            let mut data = vec![selector];
+            data.extend(mutated);
+            FuzzInput { data: HexBytes(data) }
+        }),
+        // no structure
+        1 => proptest::collection::vec(any::<u8>(), 0..120).prop_map(|data| FuzzInput { data: HexBytes(data) }),
+    ]
+    .boxed()
+}
+
+fn fuzz_case(input: &FuzzInput, ctx: &mut Ctx) -> CaseResult {
+    let data = &input.data.0;
+    if let Some((selector, wire)) = data.split_first() {
+        let (target, _) = DECODERS[usize::from(*selector) % DECODERS.len()];
+        ctx.label(format!("{target:?}"));
+        let proto_ok = match target {
+            Target::Transaction => rawtx::Transaction::decode(wire).is_ok(),
+            Target::SequencerBlock => rawblock::SequencerBlock::decode(wire).is_ok(),
+            Target::FilteredBlock => rawblock::FilteredSequencerBlock::decode(wire).is_ok(),
+            Target::Metadata => rawblock::SubmittedMetadata::decode(wire).is_ok(),
+            Target::RollupData => rawblock::SubmittedRollupData::decode(wire).is_ok(),
+            Target::Proof => astria_core::generated::astria::primitive::v1::Proof::decode(wire).is_ok(),
+        };
+        ctx.set_nontrivial(proto_ok && !wire.is_empty());
+    }
+    match catch(|| fuzz_entry(data)) {
+        Ok(()) => Ok(()),
+        Err(panic) => {
+            let failure = panic_failure(panic);
+            if failure.message.contains("accepted value is not self-consistent") {
+                vfail!("accepted-value-not-self-consistent", "{} (input {})", failure.message, hex::encode(&data[..data.len().min(300)]));
+            }
+            vfail!("decode-panic", "decoding {} bytes panicked: {} (input {})", data.len(), failure.message, hex::encode(&data[..data.len().min(300)]));
+        }
+    }
+}
+
+/// Honest encodings of every type (selector-prefixed): the libFuzzer starting corpus.
+fn seed_corpus(seed: u64) -> Vec<Vec<u8>> {
+    use proptest::{
+        strategy::ValueTree as _,
+        test_runner::{
+            Config,
+            RngAlgorithm,
+            TestRng,
+            TestRunner,
+        },
+    };
+    let mut bytes = [0_u8; 32];
+    bytes[..8].copy_from_slice(&seed.to_le_bytes());
+    let mut runner = TestRunner::new_with_rng(Config::default(), TestRng::from_seed(RngAlgorithm::ChaCha, &bytes));
+    let strategy = case(Tier::Thorough);
+    let mut out = Vec::new();
+    for _ in 0..240 {
+        let Ok(tree) = strategy.new_tree(&mut runner) else {
+            continue;
+        };
+        let case = tree.current();
+        let (encoded, _) = honest(&case);
+        let mut data = vec![selector_of(case.target)];
+        data.extend(encoded);
+        out.push(data);
+    }
+    out
+}
+
+const FUZZ_RULE: &str = "the same oracle as `core_decoders` as one function over bytes (byte 0 selects the \
+    decoder): honest encodings with 0..3 field- or byte-level mutations (one in eight handed to another \
+    type's decoder) and unstructured bytes. Non-trivial: the message parses as protobuf of the selected type";
+
+fn libfuzzer_campaign(s: &mut Session) {
+    let campaign = vcommon::libfuzzer::Campaign {
+        target: "c17_decoders",
+        seeds: seed_corpus(s.seed),
+        max_len: 16_384,
+        default_secs: 900,
+        workers: 12,
+    };
+    let outcome = vcommon::libfuzzer::run(s.seed, &campaign);
+    s.extra("libfuzzer_c17_decoders", serde_json::json!({
+        "command": outcome.command,
+        "unavailable": outcome.unavailable,
+        "executions": outcome.executions,
+        "coverage_edges": outcome.coverage_edges,
+        "features": outcome.features,
+        "corpus_files": outcome.corpus_files,
+        "seeds_written": outcome.seeds_written,
+        "crash_artifacts": outcome.crashes.len(),
+        "timeouts_or_ooms_ignored": outcome.resource_events,
+    }));
+    if let Some(reason) = &outcome.unavailable {
+        // the proptest tiers above remain the deciding step; say so instead of guessing
+        eprintln!("[C17:libfuzzer] campaign not run: {reason}");
+        s.assume(format!("the libFuzzer campaign of this run did not execute ({reason}); the proptest sub-checks decide alone"));
+        return;
+    }
+    eprintln!(
+        "[C17:libfuzzer] {} executions, {} edges, {} features, corpus {}, {} crash artifacts, {:.0}s",
+        outcome.executions, outcome.coverage_edges, outcome.features, outcome.corpus_files, outcome.crashes.len(), outcome.wall_s
+    );
+    let mut samples = Vec::new();
+    let mut confirmed = 0;
+    for (path, bytes) in &outcome.crashes {
+        let input = FuzzInput { data: HexBytes(bytes.clone()) };
+        let mut ctx = Ctx::default();
+        match fuzz_case(&input, &mut ctx) {
+            Err(failure) => {
+                confirmed += 1;
+                if confirmed <= 3 {
+                    s.report_case("fuzz_bytes", &input, failure);
+                }
+            }
+            // an artifact that does not reproduce in-process is not a violation (resource event)
+            Ok(()) => eprintln!("[C17:libfuzzer] artifact {} does not reproduce; ignored", path.display()),
+        }
+    }
+    for seed_input in campaign.seeds.iter().take(2) {
+        samples.push(serde_json::json!({"input_hex": hex::encode(&seed_input[..seed_input.len().min(160)]), "kind": "starting corpus"}));
+    }
+    s.add_external(
+        "libfuzzer_c17_decoders",
+        "coverage-guided libFuzzer campaign (fork mode, no sanitizer, stable toolchain) over `vlight::c17::fuzz_entry`, \
+         started from 240 honest selector-prefixed encodings; the oracle is inside the target. Counts: engine \
+         executions; non-trivial = inputs the engine kept because they reached new coverage (final corpus size)",
+        outcome.executions,
+        outcome.corpus_files,
+        samples,
+        outcome.wall_s,
+    );
+}
+
 pub fn run(args: &[String]) -> ! {
     let mut s = Session::from_args("C17", "exploration", args);
     s.assume("protobuf field order is canonical after one decode/encode pass: self-consistency is checked on the re-encoding of an accepted value (decode(encode(v)) == v and its checks pass again)");
@@ -373,5 +694,19 @@ pub fn run(args: &[String]) -> ! {
         strategy: Box::new(case),
         test: Box::new(run_case),
     });
+    s.run_prop(Prop {
+        name: "fuzz_bytes",
+        rule: FUZZ_RULE,
+        cases_quick: 100_000,
+        cases_thorough: 600_000,
+        shards: 12,
+        min_nontrivial: 0.2,
+        max_shrink_iters: 2000,
+        strategy: Box::new(fuzz_input),
+        test: Box::new(fuzz_case),
+    });
+    if s.tier == Tier::Thorough && !s.is_replay() && std::env::var("VERIF_NO_LIBFUZZER").is_err() {
+        libfuzzer_campaign(&mut s);
+    }
     s.finish()
 }
